@@ -40,7 +40,9 @@ RecoverChains == { <<Ics(<<"R">>)>>, <<Ics(<<"A">>), Ics(<<"R">>)>>, <<Ics(<<"R"
 Points(k) == IF k = "unary" THEN {0} ELSE IF k = "client" THEN {0, 1} ELSE {0, 1, 2}
 RecInit ==
   \E o \in RecoverChains, k \in {"unary", "client", "server", "bidi"}, p \in {"connect", "grpc", "grpcweb"},
-     v \in {"none", "nil", "error", "string", "struct", "abort", "wrapabort"} : \E at \in Points(k) :
+     \* ("slice": a value that is not comparable / hashable; "struct": the recovery function answers with an error
+     \*  that WRAPS its coded error)
+     v \in {"none", "nil", "error", "string", "struct", "slice", "abort", "wrapabort"} : \E at \in Points(k) :
     InitWith([opts |-> o, side |-> "handler", shape |-> IF k = "unary" THEN "unary" ELSE "stream", kind |-> k,
               proto |-> p, panic |-> [value |-> v, at |-> at]])
 RecSpec == RecInit /\ [][Next]_vars
